@@ -125,6 +125,42 @@ def run(ctx):
     viol += v3
     dis += d3
     stats["shape_map_cases"] = st3
+    # the same statements through the streaming Turtle reader, as a document that binds one prefix label to a second namespace half-way and
+    # spells the same local names before and after: every printed figure must be the one of the N-Triples run (whose figures are checked above)
+    from shexer.shaper import Shaper as _Sh1
+    from shexer import consts as _C1
+    stats["turtle_iter_rebinding_documents"] = 0
+    rng_t = random.Random(ctx.seed * 4241 + 1)
+    NS1, NS2 = "http://v1.example.org/ns#", "http://v2.example.org/ns#"
+    for i in range(12 if ctx.tier == "quick" else 150):
+        n1, n2 = rng_t.randint(2, 4), rng_t.randint(2, 4)
+        first, second = [], []
+        for k in range(n1):
+            first += [("<http://example.org/a%d>" % k, "a", "<http://example.org/Item>"), ("<http://example.org/a%d>" % k, "v:name", '"n%d"' % k)]
+            if k % 2:
+                first.append(("<http://example.org/a%d>" % k, "v:size", '"%d"^^<http://www.w3.org/2001/XMLSchema#integer>' % k))
+        for k in range(n2):
+            second += [("<http://example.org/b%d>" % k, "a", "<http://example.org/Item>"), ("<http://example.org/b%d>" % k, "v:name", '"m%d"' % k),
+                       ("<http://example.org/b%d>" % k, "v:partOf", "<http://example.org/a0>")]
+        ttl = "@prefix v: <%s> .\n" % NS1 + "".join("%s %s %s .\n" % t for t in first) + "@prefix v: <%s> .\n" % NS2 + "".join("%s %s %s .\n" % t for t in second)
+        def full(t, ns):
+            s_, p_, o_ = t
+            p_ = "<%s>" % RDF_TYPE if p_ == "a" else "<%s%s>" % (ns, p_[2:])
+            return "%s %s %s .\n" % (s_, p_, o_)
+        nt_ = "".join(full(t, NS1) for t in first) + "".join(full(t, NS2) for t in second)
+        kw_ = dict(all_classes_mode=True, instances_report_mode=_C1.MIXED_INSTANCES, inverse_paths=(i % 2 == 0))
+        try:
+            a_ = _Sh1(raw_graph=nt_, input_format=_C1.NT, **kw_).shex_graph(string_output=True)
+            b_ = _Sh1(raw_graph=ttl, input_format=_C1.TURTLE_ITER, **kw_).shex_graph(string_output=True)
+        except Exception as e:
+            viol.append({"what": "Turtle document that re-binds a prefix: %s %s" % (type(e).__name__, str(e)[:120]), "turtle": ttl})
+            continue
+        stats["turtle_iter_rebinding_documents"] += 1
+        if a_ != b_:
+            la, lb = a_.split("\n"), b_.split("\n")
+            k = next((j for j, (x, y) in enumerate(zip(la, lb)) if x != y), min(len(la), len(lb)))
+            viol.append({"what": "figures of a Turtle document that re-binds a prefix half-way differ from those of the same statements in N-Triples, first at line %d: %r vs %r"
+                                 % (k, la[k:k + 1], lb[k:k + 1]), "turtle": ttl, "n_triples": nt_, "from_n_triples": a_[:800], "from_turtle": b_[:800]})
     # shrink the first violations
     out_v = []
     for v in viol[:3]:
